@@ -1036,28 +1036,61 @@ def _line_preserving_view(w, f, org, block, is_source, depth=0):
 
 
 def l17(rep, w, prop='C17'):
-    """every entry of a trace carries the line its own frame is stopped at: in the loop of runtime_error that walks the frames, each entry added
-    to the report (add_message) comes after the line look-up for the frame of this iteration (code_offset of that frame's ip) on every path
-    through the loop body - a prefix remembered from the previous entry ("same function, same text") gives all frames of a recursion the line
-    of the innermost one."""
+    """every entry of a trace carries the line its own frame is stopped at: in the loop that walks the frames, each entry that is made - added to
+    the report (add_message), or pushed onto a vector of formatted lines that a second loop then adds one by one - comes after the line
+    look-up for the frame of this iteration (code_offset of that frame's ip) on every path through the loop body. A prefix remembered from the
+    previous entry ("same function, same text") gives all frames of a recursion the line of the innermost one."""
     r = rep.rule('L17', 'each trace entry is formatted from the line look-up of its own frame, on every path through the loop', floor=1)
     f = w.require_fn('yarel::vm::Vm::runtime_error', prop)
-    dom = f.dominators()
-    adds = [bi for bi, t in f.calls() if (callee_name(t) or '').endswith('Error::add_message')]
-    looks = {bi for bi, t in f.calls() if (callee_name(t) or '').endswith('::code_offset')}
     n = 0
-    for ab in adds:
-        heads = [bi for bi, t in f.calls() if strip_generics(callee_name(t) or '').rsplit('::', 1)[-1] in ('next', 'next_back') and bi in dom.get(ab, ()) and bi in f.reachable_blocks(ab)]
-        if not heads:
-            continue        # the message of the error itself, outside the loop over frames
-        n += 1
-        head = max(heads, key=lambda b: len(dom.get(b, ())))
-        skipped = ab in f.reachable_blocks(head, avoid=looks)
-        r.check(bool(looks) and not skipped, 'runtime_error: an entry is added only after the line look-up of this frame',
-                'runtime_error adds a trace entry on a path of the loop that has not looked up the line of the current frame: the entry shows a line remembered from another frame',
-                f.loc(f.blocks[ab]['t'].get('sp')))
+
+    def loop_head(g, dom, b):
+        heads = [bi for bi, t in g.calls() if strip_generics(callee_name(t) or '').rsplit('::', 1)[-1] in ('next', 'next_back') and bi in dom.get(b, ()) and bi in g.reachable_blocks(b)]
+        return max(heads, key=lambda x: len(dom.get(x, ()))) if heads else None
+
+    def replays_lines(g, head):
+        """the loop hands out lines that are already formatted (an iterator over Strings), not frames"""
+        t = g.blocks[head]['t']
+        tys = ' '.join(g.crate.tstr(a) for a in (t['f'].get('ra') or t['f'].get('a') or []))
+        return 'String' in tys and 'CallFrame' not in tys
+
+    def judge(g, sites, what):
+        nonlocal n
+        dom = g.dominators()
+        looks = {bi for bi, t in g.calls() if (callee_name(t) or '').endswith('::code_offset')}
+        replay = False
+        for ab in sites:
+            head = loop_head(g, dom, ab)
+            if head is None:
+                continue        # the message of the error itself, outside any loop
+            if replays_lines(g, head):
+                replay = True
+                continue
+            n += 1
+            skipped = ab in g.reachable_blocks(head, avoid=looks)
+            r.check(bool(looks) and not skipped, '%s: %s only after the line look-up of this frame' % (g.name, what),
+                    '%s makes a trace entry on a path of the loop that has not looked up the line of the current frame: the entry shows a line remembered from another frame' % g.path,
+                    g.loc(g.blocks[ab]['t'].get('sp')))
+        return replay
+
+    def pushes(g):
+        out = []
+        for bi, t in g.calls():
+            if strip_generics(callee_name(t) or '') in ('std::vec::Vec::push',) and len(t['args']) == 2:
+                pl = op_place(t['args'][1])
+                if pl is not None and g.crate.tstr(pl.get('t', g.local_ty(pl['l']))).endswith('String'):
+                    out.append(bi)
+        return out
+    adds = [bi for bi, t in f.calls() if (callee_name(t) or '').endswith('Error::add_message')]
+    if judge(f, adds, 'an entry is added'):
+        # the lines were formatted before: in this function, or in the function of the VM that returns them
+        judge(f, pushes(f), 'a line is collected')
+        for _, t in f.calls():
+            g = w.fns.get(callee_name(t) or '')
+            if g is not None and g.path.startswith('yarel::vm::') and g.path != f.path and 'Vec<' in g.crate.tstr(g.local_ty(0)) and 'String' in g.crate.tstr(g.local_ty(0)):
+                judge(g, pushes(g), 'a line is collected')
     if n == 0:
-        raise Broken(prop, 'anchor', 'runtime_error: no trace entry added inside a loop over the frames')
+        raise Broken(prop, 'anchor', 'runtime_error: no trace entry made inside a loop over the frames')
 
 
 def l18(rep, w, prop='C17'):
